@@ -53,20 +53,38 @@ func (h *harness) builderPass(c *Chain, sf *StateFile, rng *rand.Rand, max int) 
 			if liveAny(st, ct.I) { // revoke + rotate in one record (BuildBatchRequest)
 				cands = append(cands, e)
 			}
+		case "Invite":
+			if (ct.V == "any") || (ct.V == "req" && ct.P == "none") { // BuildInviteAnyone / BuildInvite
+				cands = append(cands, e)
+			}
 		}
 	}
 	rng.Shuffle(len(cands), func(i, j int) { cands[i], cands[j] = cands[j], cands[i] })
-	if len(cands) > max {
+	if max > 0 && len(cands) > max {
 		cands = cands[:max]
 	}
 	for _, e := range cands {
-		h.builderEdge(c, sf.Path, st, e)
+		h.builderEdge(c, sf.Path, st, e, false)
+		if e.Cs[0].K == "RequestAccept" {
+			// the same approval inside a batch that also removes an account (the approval then carries the NEW key)
+			h.builderEdge(c, sf.Path, st, e, true)
+		}
 	}
 }
 
-func (h *harness) builderEdge(c *Chain, path []Rec, st *Post, e AccEdge) {
+func (h *harness) builderEdge(c *Chain, path []Rec, st *Post, e AccEdge, withRemoval bool) {
 	w := c.w
 	a, ct := e.A, e.Cs[0]
+	victim := ""
+	if withRemoval {
+		victim = w.first(func(n string) bool {
+			p := st.Perm[n]
+			return n != a && n != ct.Q && p != "none" && p != "owner" && (p != "admin" || st.Perm[a] == "owner")
+		})
+		if victim == "-" {
+			return
+		}
+	}
 	av, err := buildList(w.acc[a], c.raws, recordverifier.NewValidateFull())
 	if err != nil {
 		h.rep.DriftNote("[%s] the view of author %s cannot be built: %v", h.cfg, a, err)
@@ -90,8 +108,59 @@ func (h *harness) builderEdge(c *Chain, path []Rec, st *Post, e AccEdge) {
 		raw, err = b.BuildAccountsAdd(list.AccountsAddPayload{Additions: []list.AccountAdd{{Identity: w.pub(ct.T), Permissions: list.AclPermissions(permProto[ct.P]), Metadata: []byte("m")}}})
 		admitted = []string{ct.T}
 	case "RequestAccept":
-		raw, err = b.BuildRequestAccept(list.RequestAcceptPayload{RequestRecordId: c.reqId(ct.Q), Permissions: list.AclPermissions(permProto[ct.P])})
+		if withRemoval {
+			var res list.BatchResult
+			res, err = b.BuildBatchRequest(list.BatchRequestPayload{
+				Removals:  list.AccountRemovePayload{Identities: []crypto.PubKey{w.pub(victim)}, Change: change},
+				Approvals: []list.RequestAcceptPayload{{RequestRecordId: c.reqId(ct.Q), Permissions: list.AclPermissions(permProto[ct.P])}}})
+			raw = res.Rec
+			rotates, removed = true, []string{victim}
+		} else {
+			raw, err = b.BuildRequestAccept(list.RequestAcceptPayload{RequestRecordId: c.reqId(ct.Q), Permissions: list.AclPermissions(permProto[ct.P])})
+		}
 		admitted = []string{ct.Q}
+	case "Invite":
+		// the builder draws its own invite key pair: inspect the record only
+		var res list.InviteResult
+		if ct.V == "any" {
+			res, err = b.BuildInviteAnyone(list.AclPermissions(permProto[ct.P]))
+		} else {
+			res, err = b.BuildInvite()
+		}
+		h.count("builder_records", 1)
+		h.rep.Case("builder|Invite-" + ct.V + "|" + errName(err))
+		if err != nil || res.InviteRec == nil {
+			h.rep.DriftNote("[%s] the client builder refuses %s after %v: %v", h.cfg, e.Rec, path, err)
+			return
+		}
+		rec := &consensusproto.Record{}
+		data := &aclrecordproto.AclData{}
+		if e1 := rec.UnmarshalVT(res.InviteRec.Payload); e1 != nil {
+			panic(e1)
+		}
+		if e2 := data.UnmarshalVT(rec.Data); e2 != nil {
+			panic(e2)
+		}
+		for _, cc := range data.AclContent {
+			iv := cc.GetInvite()
+			if iv == nil {
+				continue
+			}
+			if ct.V == "any" {
+				good := false
+				if dec, ok := safeDecrypt(res.InviteKey.Decrypt, iv.EncryptedReadKey); ok {
+					if k, err := crypto.UnmarshallAESKeyProto(dec); err == nil && k.Equals(c.gens[len(c.gens)-1].key) {
+						good = true
+					}
+				}
+				if !good {
+					h.keyViolate("builder:invite-key", fmt.Sprintf("the open invite built by the client builder does not give its key holder the current read key (path %v)", path), h.robj(path, &e.Rec, false, "builder"))
+				}
+			} else if len(iv.EncryptedReadKey) != 0 {
+				h.keyViolate("builder:request-invite-carries-key", fmt.Sprintf("the request-to-join invite built by the client builder carries a read key ciphertext (path %v)", path), h.robj(path, &e.Rec, false, "builder"))
+			}
+		}
+		return
 	case "InviteJoin":
 		raw, err = b.BuildInviteJoinWithoutApprove(list.InviteJoinPayload{InviteKey: w.inv[ct.I], Permissions: list.AclPermissions(permProto[ct.P]), Metadata: []byte("m")})
 		admitted = []string{a}
@@ -115,7 +184,11 @@ func (h *harness) builderEdge(c *Chain, path []Rec, st *Post, e AccEdge) {
 	} else if e2 = data.UnmarshalVT(rec.Data); e2 != nil {
 		panic(e2)
 	}
-	curKey := c.gens[len(c.gens)-1].key
+	curKey := c.gens[len(c.gens)-1].key // what the previous-key wrap must contain
+	admKey := curKey                   // what an admission must carry: the key current when it is applied
+	if withRemoval {
+		admKey = newKey
+	}
 	var encOld [][]byte
 	for _, cc := range data.AclContent {
 		var rk *aclrecordproto.AclReadKeyChange
@@ -196,12 +269,12 @@ func (h *harness) builderEdge(c *Chain, path []Rec, st *Post, e AccEdge) {
 			dec, ok := safeDecrypt(w.acc[to].SignKey.Decrypt, enc)
 			good := false
 			if ok {
-				if k, err := crypto.UnmarshallAESKeyProto(dec); err == nil && k.Equals(curKey) {
+				if k, err := crypto.UnmarshallAESKeyProto(dec); err == nil && k.Equals(admKey) {
 					good = true
 				}
 			}
 			if !good {
-				h.keyViolate("builder:admission-key:"+ct.K, fmt.Sprintf("the %s built by the client builder does not give %s the current read key (path %v)", ct.K, to, path), h.robj(path, &e.Rec, false, "builder"))
+				h.keyViolate("builder:admission-key:"+ct.K+batchTag(withRemoval), fmt.Sprintf("the %s built by the client builder does not give %s the current read key (path %v)", ct.K, to, path), h.robj(path, &e.Rec, false, "builder"))
 			}
 		}
 	}
@@ -226,15 +299,22 @@ func (h *harness) builderEdge(c *Chain, path []Rec, st *Post, e AccEdge) {
 		rd.rot = []rotInfo{{key: newKey}}
 	}
 	for _, p := range admitted {
-		rd.keyTo = append(rd.keyTo, keyGift{p, false})
+		rd.keyTo = append(rd.keyTo, keyGift{p, withRemoval})
 	}
 	f.updateHeld(rd)
 	post := f.project(f.l.AclState())
 	// the revoke+rotate batch has no single-content counterpart in the model's list: compare only single ones
-	if ct.K != "InviteRevoke" {
+	if ct.K != "InviteRevoke" && !withRemoval {
 		if d := diffPost(w.meta.AccSeq, w.meta.InvIds, &e.Post, post); d != "" {
 			h.rep.DriftNote("[%s] state after the builder-made %s (path %v) differs from the model: %s", h.cfg, e.Rec, path, d)
 		}
 	}
 	h.checkKeys(f, append(append([]Rec(nil), path...), e.Rec), nil)
+}
+
+func batchTag(b bool) string {
+	if b {
+		return ":with-removal"
+	}
+	return ""
 }
